@@ -12,6 +12,8 @@ import (
 	_ "github.com/crossplane/crossplane/verifsim/props/c12"
 	_ "github.com/crossplane/crossplane/verifsim/props/c13"
 	_ "github.com/crossplane/crossplane/verifsim/props/c14"
+	_ "github.com/crossplane/crossplane/verifsim/props/c15"
+	_ "github.com/crossplane/crossplane/verifsim/props/c16"
 	_ "github.com/crossplane/crossplane/verifsim/props/c19"
 	_ "github.com/crossplane/crossplane/verifsim/props/c20"
 )
